@@ -15,7 +15,17 @@ documented meaning: zero-padded FFT, every component times attenuation(|f|) time
 import numpy as np
 import pyrex
 from vlib.core import Divergence
-from drivers.symmetry_drv import make
+from drivers.symmetry_drv import make as _make
+from pyrex.signals import FunctionSignal, EmptySignal
+from pyrex.ice_model import AntarcticIce
+from pyrex.ray_tracing import SpecializedRayTracer
+
+
+def make(kind):
+    if kind == 'specialized-above':
+        # a medium of index 1.3 above the ice: reflections that would be total against air are partial here
+        return SpecializedRayTracer, AntarcticIce(index_above=1.3), 1e-6, True
+    return _make(kind)
 
 DT = 2.0 ** -30
 STEP = {1: 1.0, 2: 2.0, 3: 0.5}                # grid step in units of DT
@@ -144,6 +154,39 @@ class PropagateDriver:
         up0 = unit(np.cross(us0, em))
         exact = interp is None or self.tracer in ('uniform', 'layered')
         tol = TOL * max(big, 1e-300) * 10
+        kw = {} if interp is None else {'attenuation_interpolation': interp}
+        g = grid(0, sx)
+        # the same samples as a function-backed signal (evaluated lazily, after propagate() has returned): same outputs
+        for i in range(2):
+            vals = BASIS[i]
+            def table(t, vv=vals, g0=g[0], dt_=dt):
+                # nearest-sample lookup (the signal is only ever evaluated on its own grid, up to rounding of t + tof - tof)
+                idx = np.rint((np.asarray(t, dtype=float) - g0) / dt_).astype(int)
+                ok = (idx >= 0) & (idx < len(vv))
+                return np.where(ok, np.asarray(vv, dtype=float)[np.clip(idx, 0, len(vv) - 1)], 0.0)
+            fsig = FunctionSignal(g, table, value_type='field')
+            (fs_, fp_), _ = path.propagate(fsig, polarization=E[0] + 2 * E[1] + 3 * E[2], **kw)
+            self.calls += 1
+            for nm, out, B in (('s', fs_, Bs), ('p', fp_, Bp)):
+                want = B[i][0] + 2 * B[i][1] + 3 * B[i][2]
+                got = np.asarray(out.values, dtype=float)
+                if not (float(np.max(np.abs(got - want))) <= 6 * tol):
+                    k = int(np.argmax(np.abs(got - want)))
+                    raise Divergence('%s: %s output for a function-backed input signal vs the sampled signal with the same samples, sample %d' % (where, nm, k),
+                                     float(want[k]), float(got[k]))
+        # an empty signal stays empty, is delayed once, keeps its type; the two outputs are separate objects
+        emp = EmptySignal(g, value_type='field')
+        outs = [('unpolarized', path.propagate(emp, **kw))]
+        (es, ep), _ = path.propagate(emp, polarization=E[0] + E[2], **kw)
+        outs += [('s', es), ('p', ep)]
+        if es is ep:
+            raise Divergence(where + ': s and p outputs for an empty signal', 'two objects', 'one shared object')
+        for nm, out in outs:
+            if len(out.times) != len(g) or not np.array_equal(np.asarray(out.times), g + path.tof):
+                raise Divergence('%s: times of the %s output for an empty signal' % (where, nm), 'input grid + time of flight',
+                                 (float(out.times[0]), float(g[0] + path.tof)))
+            if np.any(np.asarray(out.values) != 0) or out.value_type != emp.value_type:
+                raise Divergence('%s: %s output for an empty signal' % (where, nm), 'all zero, type field', (float(np.max(np.abs(out.values))), out.value_type))
         for i in range(2):
             if exact:
                 want0 = oracle(BASIS[i], dt, path.attenuation, 1.0)
